@@ -133,34 +133,18 @@ func builtinGlobalParseInt(call FunctionCall) Value {
 	return int64Value(value)
 }
 
-var (
-	parseFloatMatchBadSpecial = regexp.MustCompile(`[\+\-]?(?:[Ii]nf$|infinity)`)
-	parseFloatMatchValid      = regexp.MustCompile(`[0-9eE\+\-\.]|Infinity`)
-)
+// The longest prefix that is a StrDecimalLiteral (15.1.2.3, 9.3.1).
+var parseFloatMatchPrefix = regexp.MustCompile(`^[\+\-]?(?:Infinity|(?:[0-9]+\.?[0-9]*|\.[0-9]+)(?:[eE][\+\-]?[0-9]+)?)`)
 
 func builtinGlobalParseFloat(call FunctionCall) Value {
-	// Caveat emptor: This implementation does NOT match the specification
 	input := strings.Trim(call.Argument(0).string(), builtinStringTrimWhitespace)
 
-	if parseFloatMatchBadSpecial.MatchString(input) {
+	literal := parseFloatMatchPrefix.FindString(input)
+	if literal == "" {
 		return NaNValue()
 	}
-	value, err := strconv.ParseFloat(input, 64)
-	if err != nil {
-		for end := len(input); end > 0; end-- {
-			val := input[0:end]
-			if !parseFloatMatchValid.MatchString(val) {
-				return NaNValue()
-			}
-			value, err = strconv.ParseFloat(val, 64)
-			if err == nil {
-				break
-			}
-		}
-		if err != nil {
-			return NaNValue()
-		}
-	}
+	// A range error leaves the correctly rounded ±Inf (or zero) in value.
+	value, _ := strconv.ParseFloat(literal, 64)
 	return float64Value(value)
 }
 
